@@ -50,6 +50,8 @@ def class_of_base(b):
 
 
 TEMPLATE_CAPS = {'Required': 'gsh', 'Optional': 'gshdu', 'Default': 'gshdu', 'Vector': 'gshdu'}
+# parameters the random fill must not touch (they tie an element to its ID / to the kind of its content)
+NO_FILL = {'TypeDescriptor', 'FormatDescriptor_', 'TransportId', 'FrameFormatId', 'TrackId'}
 BLOCKS = {'AudioBlockFormatDirectSpeakers', 'AudioBlockFormatMatrix', 'AudioBlockFormatObjects', 'AudioBlockFormatHoa',
           'AudioBlockFormatBinaural'}
 
@@ -97,6 +99,15 @@ def generate(repo, outpath):
     T = ['// GENERATED by tools/accgen.py - per-class parameter tables (fingerprint and random fill) - do not edit',
          'namespace {']
     L = ['// GENERATED by tools/accgen.py - do not edit', 'namespace {']
+    ID_CLASSES = {c for c in classes if c.endswith('Id')}
+    for c in classes:
+        T.append('std::string others_%s(const %s& c, const char* skip);' % (c, c))
+        T.append('void fill_%s(%s& c, Rng& rng);' % (c, c))
+    for c in classes:
+        if c in VALUE and c not in ID_CLASSES:
+            T.append('template <> struct Shower<%s> { static std::string str(const %s& v) { return "{" + others_%s(v, "") + "}"; } };' % (c, c, c))
+            T.append('template <> struct Gen<%s> { static boost::optional<%s> make(Rng& r) { %s v = %s; fill_%s(v, r); return v; } };'
+                     % (c, c, c, VALUE[c], c))
     for c in classes:
         ps = [p for cc, p in pairs if cc == c]
         if c in SHARED:
@@ -114,7 +125,7 @@ def generate(repo, outpath):
         T.append('void fill_%s(%s& c, Rng& rng) {' % (c, c))
         T.append('  (void)c; (void)rng;')
         for p in ps:
-            if p.endswith('Id') and p.startswith('Audio'):
+            if p.endswith('Id') and p.startswith('Audio') or p in NO_FILL:
                 continue      # element IDs are set by the scripts, not by the random fill
             T.append('  maybe_set<%s, %s>(c, rng, std::integral_constant<bool, %s>());' % (c, p, 'true' if 's' in caps[(c, p)] else 'false'))
         T.append('}')
